@@ -184,7 +184,9 @@ class ParserFactory:
             if has_annotations:
                 p[0].set_annotations(p[7])
         else:
-            raise ValueError('Expected alias keyword')
+            # Some other keyword in alias position (e.g. "example x = String").
+            msg = "Expected 'alias' keyword, got %s." % repr(p[1]).lstrip('u')
+            self.errors.append((msg, p.lineno(1), self.path))
 
     def p_nl(self, p):
         'NL : NEWLINE'
